@@ -77,11 +77,9 @@ class FuncInfo:
         while stack:
             n = stack.pop()
             yield n
+            if not into_nested and isinstance(n, (ast.FunctionDef, ast.AsyncFunctionDef, ast.ClassDef, ast.Lambda)):
+                continue  # the nested definition itself is visible, its body is not
             for c in reversed(list(ast.iter_child_nodes(n))):
-                if not into_nested and isinstance(
-                    c, (ast.FunctionDef, ast.AsyncFunctionDef, ast.ClassDef, ast.Lambda)
-                ):
-                    continue
                 stack.append(c)
 
     def calls(self, name: str | None = None, into_nested=False) -> list[ast.Call]:
